@@ -148,6 +148,11 @@ let () =
                   let text = show_full s' ob in
                   if !first = None then first := Some text;
                   if text = impl && not (List.mem s' !next) then next := s' :: !next) ords) !cands;
+          (* c11_reqres_conservation_full, evaluated on every model state that agrees with the implementation *)
+          if List.exists (fun st -> not (cons_okb st)) !next then begin
+            incr mm_model;
+            report "modelcons" (Printf.sprintf "MISMATCH case=%d op=%d kind=model what=conservation line=[%s] model=[reference-count-conservation-fails-on-the-model] impl=[%s]\n" !case_no !op_no line impl)
+          end;
           (match !next with
            | [] ->
              incr mm_model; dead := true;
